@@ -621,7 +621,45 @@ func ChoiceHeavy(r *rand.Rand) *Grammar {
 			}
 			return &Expr{K: KSeq, Kids: kids}
 		}
+		// disjoint: a choice whose alternatives start with pairwise different characters (drawn without
+		// replacement), so that peg's -switch turns the WHOLE choice into a switch; alternatives record tokens
+		// (captures, actions, rule calls) so that what happens to them inside lookahead/repetition is observable
+		disjoint := func() *Expr {
+			perm := r.Perm(len(alpha))
+			n := 3 + r.Intn(4)
+			if n > len(alpha)/2 {
+				n = len(alpha) / 2
+			}
+			e := &Expr{K: KAlt}
+			pi := 0
+			next := func() rune { c := alpha[perm[pi%len(perm)]]; pi++; return c }
+			for i := 0; i < n; i++ {
+				c1 := next()
+				var first *Expr
+				switch r.Intn(5) {
+				case 0:
+					first = Un(KCapture, &Expr{K: KLit, Text: []rune{c1}})
+				case 1:
+					c2 := next()
+					first = &Expr{K: KClass, Items: []Item{{c1, c1}, {c2, c2}}}
+				case 2:
+					c2 := next()
+					first = Un(KCapture, Alt(Seq(&Expr{K: KLit, Text: []rune{c1}}, term()), Seq(&Expr{K: KLit, Text: []rune{c2}}, Un(KQuery, term()))))
+				default:
+					first = &Expr{K: KLit, Text: []rune{c1}}
+				}
+				kids := append([]*Expr{first}, tail()...)
+				if r.Intn(2) == 0 {
+					kids = append(kids, &Expr{K: KAction})
+				}
+				e.Kids = append(e.Kids, &Expr{K: KSeq, Kids: kids})
+			}
+			return e
+		}
 		choice = func(depth int) *Expr {
+			if r.Intn(3) == 0 && len(alpha) >= 8 {
+				return disjoint()
+			}
 			n := 3 + r.Intn(6)
 			e := &Expr{K: KAlt}
 			for i := 0; i < n; i++ {
